@@ -103,8 +103,19 @@ Definition check_un (t : list un_row) : bool :=
 
 (* index read: one row per base representative *)
 Definition idx_row := (rep * list dres)%type.
+(* the model makes no prediction where the C++ cast itself is not defined (a negative float
+   converted to an unsigned index): there the binary only has to answer with a value or a
+   typed error *)
+Definition out_matches_opt (o : option outcome) (d : dres) : bool :=
+  match o with
+  | None => match d with DV _ _ | DE _ _ _ => true | _ => false end
+  | Some _ => out_matches o d
+  end.
 Definition check_idx_row (r : idx_row) : bool :=
-  let '(a, ds) := r in forallb2 (fun b d => out_matches (index (Exact a) (Exact b)) d) all_reps ds.
+  let '(a, ds) := r in forallb2 (fun b d => out_matches_opt (index (Exact a) (Exact b)) d) all_reps ds.
+Definition unpredicted_idx : nat :=
+  length (filter (fun ab => match index (Exact (fst ab)) (Exact (snd ab)) with None => true | Some _ => false end)
+                 (list_prod all_reps all_reps)).
 Definition check_idx (t : list idx_row) : bool :=
   forallb2 rep_beq (map fst t) all_reps && forallb check_idx_row t.
 
